@@ -28,6 +28,8 @@ type ChunkMsgSpec struct {
 	Seed  uint64 `json:"seed"`
 	Aggr  []int  `json:"aggr,omitempty"`   // aggregate message: lengths of the sub messages
 	SetCS int    `json:"set_cs,omitempty"` // a Set Chunk Size message with this value instead of a data message
+	// MidMsg: the Set Chunk Size message is sent while other chunk streams have partly sent messages
+	MidMsg bool `json:"mid_msg,omitempty"`
 }
 
 type ChunkPlan struct {
@@ -87,7 +89,7 @@ func genC08Plan(r *sim.Rng, tier string) ChunkPlan {
 	for i := 0; i < n; i++ {
 		if r.Bool(0.08) {
 			cs = []int{1, 2, 97, 128, 4096, 65536, 100000}[r.Intn(7)]
-			pl.Msgs = append(pl.Msgs, ChunkMsgSpec{SetCS: cs, Type: 1, Csid: 2})
+			pl.Msgs = append(pl.Msgs, ChunkMsgSpec{SetCS: cs, Type: 1, Csid: 2, MidMsg: r.Bool(0.5)})
 			continue
 		}
 		csid := csids[r.Intn(nStreams)]
@@ -200,30 +202,71 @@ func execChunk(k *sim.Kernel, pl ChunkPlan) {
 	var endOffsets []int // byte offset after which expect[i] is complete
 	var wire []byte
 	type pendingMsg struct {
-		chunks [][]byte
-		exp    []expMsg
+		firstHdr, contHdr []byte
+		payload           []byte
+		sent              int
+		csid              int
+		started           bool
+		exp               []expMsg
 	}
 	var inflight []*pendingMsg
+	// one chunk of a random in-flight message, cut with the chunk size in force now
+	step := func() {
+		i := r.Intn(len(inflight))
+		pm := inflight[i]
+		if !pm.started {
+			wire = append(wire, pm.firstHdr...)
+			pm.started = true
+		} else {
+			wire = append(wire, pm.contHdr...)
+		}
+		n := len(pm.payload) - pm.sent
+		if n > w.ChunkSize {
+			n = w.ChunkSize
+		}
+		wire = append(wire, pm.payload[pm.sent:pm.sent+n]...)
+		pm.sent += n
+		if pm.sent == len(pm.payload) {
+			for _, e := range pm.exp {
+				expect = append(expect, e)
+				endOffsets = append(endOffsets, len(wire))
+			}
+			inflight = append(inflight[:i], inflight[i+1:]...)
+		}
+	}
 	flush := func() {
 		for len(inflight) > 0 {
-			i := r.Intn(len(inflight))
-			pm := inflight[i]
-			wire = append(wire, pm.chunks[0]...)
-			pm.chunks = pm.chunks[1:]
-			if len(pm.chunks) == 0 {
-				for _, e := range pm.exp {
-					expect = append(expect, e)
-					endOffsets = append(endOffsets, len(wire))
-				}
-				inflight = append(inflight[:i], inflight[i+1:]...)
-			}
+			step()
 		}
 	}
 	busy := map[int]bool{}
 	for _, spec := range pl.Msgs {
 		if spec.SetCS > 0 {
-			flush() // a chunk size change between whole messages only
-			busy = map[int]bool{}
+			if spec.MidMsg {
+				// (a chunk stream carries one message at a time: finish whatever is in flight on csid 2 itself)
+				for again := true; again; {
+					again = false
+					for _, pm := range inflight {
+						if pm.csid == 2 {
+							again = true
+						}
+					}
+					if again {
+						step()
+					}
+				}
+				// the control message arrives between the chunks of other messages; it takes effect at once, so
+				// the rest of those messages is cut with the new size
+				for j := r.Intn(4); j > 0 && len(inflight) > 0; j-- {
+					step()
+				}
+				if len(inflight) > 0 {
+					k.Probe("c08_set_chunk_size_mid_message")
+				}
+			} else {
+				flush() // a chunk size change between whole messages
+				busy = map[int]bool{}
+			}
 			m := rtmpc.SetChunkSizeMsg(spec.SetCS)
 			wire = append(wire, w.Encode(m)...)
 			expect = append(expect, expMsg{Type: m.Type, Csid: 2, Payload: m.Payload})
@@ -248,7 +291,9 @@ func execChunk(k *sim.Kernel, pl ChunkPlan) {
 			m.Payload = randBytes(spec.Seed, spec.Len)
 			pm.exp = []expMsg{{Type: m.Type, Msid: m.Msid, Ts: m.Ts, Csid: m.Csid, Payload: m.Payload}}
 		}
-		pm.chunks = w.EncodeChunks(m)
+		pm.firstHdr, pm.contHdr = w.EncodeParts(m)
+		pm.payload = m.Payload
+		pm.csid = m.Csid
 		inflight = append(inflight, pm)
 		busy[spec.Csid] = true
 		if r.Bool(0.4) {
